@@ -76,6 +76,8 @@ impl Vm {
     /// Apply pre-compilation transforms to expr, returning the transformed
     /// AST.
     pub fn transform(&mut self, expr: &Cell) -> Result<Cell, Error> {
+        #[cfg(marwood_verif)]
+        let _verif_depth = crate::vm::verif::depth::enter("compile", "transform");
         match expr {
             Cell::Pair(_, _) => self.transform_procedure_application(expr),
             cell => Ok(cell.clone()),
@@ -83,6 +85,8 @@ impl Vm {
     }
 
     pub fn transform_procedure_application(&mut self, expr: &Cell) -> Result<Cell, Error> {
+        #[cfg(marwood_verif)]
+        let _verif_depth = crate::vm::verif::depth::enter("compile", "transform_procedure_application");
         let proc = expr.car().unwrap();
         let mut rest = expr.cdr().unwrap();
 
@@ -175,6 +179,8 @@ impl Vm {
         tail: bool,
         expr: &Cell,
     ) -> Result<(), Error> {
+        #[cfg(marwood_verif)]
+        let _verif_depth = crate::vm::verif::depth::enter("compile", "compile_expression");
         match expr {
             Cell::Pair(_, _) => self.compile_procedure_application(lambda, tail, expr),
             Cell::Symbol(_) => self.compile_symbol_expression(lambda, expr),
@@ -209,6 +215,8 @@ impl Vm {
         tail: bool,
         expr: &Cell,
     ) -> Result<(), Error> {
+        #[cfg(marwood_verif)]
+        let _verif_depth = crate::vm::verif::depth::enter("compile", "compile_procedure_application");
         let proc = expr.car().unwrap();
         let rest = expr.cdr().unwrap();
         match proc {
@@ -276,6 +284,8 @@ impl Vm {
     /// `lambda` - The lambda to emit bytecode to
     /// `expr` - (define variable expression)
     pub fn compile_define(&mut self, lambda: &mut Lambda, expr: &Cell) -> Result<(), Error> {
+        #[cfg(marwood_verif)]
+        let _verif_depth = crate::vm::verif::depth::enter("compile", "compile_define");
         let rest = cdr!(expr);
 
         // A define must have at least 2 arguments
@@ -351,6 +361,8 @@ impl Vm {
         _tail: bool,
         expr: &Cell,
     ) -> Result<(), Error> {
+        #[cfg(marwood_verif)]
+        let _verif_depth = crate::vm::verif::depth::enter("compile", "compile_set");
         let rest = cdr!(expr);
         let (variable, expression) = match rest.collect_vec().as_slice() {
             [variable, expression] => (*variable, *expression),
@@ -444,6 +456,8 @@ impl Vm {
         expr: &Cell,
         is_define_special: bool,
     ) -> Result<(), Error> {
+        #[cfg(marwood_verif)]
+        let _verif_depth = crate::vm::verif::depth::enter("compile", "compile_lambda");
         let rest = cdr!(expr);
         if rest.is_nil() {
             return Err(InvalidNumArgs("procedure".into()));
@@ -576,6 +590,8 @@ impl Vm {
         tail: bool,
         expr: &Cell,
     ) -> Result<(), Error> {
+        #[cfg(marwood_verif)]
+        let _verif_depth = crate::vm::verif::depth::enter("compile", "compile_runtime_procedure_application");
         let proc = car!(expr);
         let mut rest = cdr!(expr);
         // Evaluate and push each argument left-to-right
@@ -623,6 +639,8 @@ impl Vm {
         tail: bool,
         expr: &Cell,
     ) -> Result<(), Error> {
+        #[cfg(marwood_verif)]
+        let _verif_depth = crate::vm::verif::depth::enter("compile", "compile_if");
         let rest = cdr!(expr);
         if rest.is_nil() || !rest.is_list() {
             return Err(InvalidArgs("if".into(), "test".into(), rest.to_string()));
@@ -699,6 +717,8 @@ impl Vm {
         expr: &Cell,
         mut depth: usize,
     ) -> Result<(), Error> {
+        #[cfg(marwood_verif)]
+        let _verif_depth = crate::vm::verif::depth::enter("compile", "compile_quasiquote");
         //
         // Vector
         //
